@@ -11,6 +11,14 @@ def run(prop: str, tier: str) -> int:
         from . import props_e1
 
         return props_e1.run(prop, tier)
+    if prop in ("C03", "C05", "C11"):
+        from . import props_strings
+
+        return props_strings.run(prop, tier)
+    if prop == "C10":
+        from . import props_e3
+
+        return props_e3.run_c10(tier)
     raise SystemExit(f"unknown property {prop}")
 
 
